@@ -368,8 +368,12 @@ def check_choice_points(ctx: Ctx, prog: Program) -> None:
                     and it.scalar(s, c.args[3]) == init(uroot, T - ONE, K(U_IDX))
                     and it.scalar(s, c.args[4]) == init(uroot, T - ONE, K(U_EV))
                 )
-                if not okc:
-                    ctx.violation("R-ANNOUNCE", fn.path, "backtrack", "replay-args", f"{fn.path}:{c.line}",
+                row_okc = len(a) == 5 and isinstance(a[1], View) and a[1].root == froot and len(a[1].idx) == 1 and a[1].idx[0] == T - ONE
+                if not row_okc:
+                    ctx.violation("R-ANNOUNCE", fn.path, "backtrack", "replay-row", f"{fn.path}:{c.line}",
+                                  f"backtrack re-queues against {a[1]!r}, not the enabled-flags row of the level that becomes current")
+                elif not okc:
+                    ctx.violation("R-ANNOUNCE", fn.path, "backtrack", "replay-pair", f"{fn.path}:{c.line}",
                                   "backtrack: the replayed (domain, events) pair or the flags row is not the one saved at the "
                                   f"level that becomes current: args = {[repr(x) for x in c.args]}")
                 else:
